@@ -1349,6 +1349,7 @@ def worker_fn(check, tier_, master, n_runs, budget_s=None):
         st = Counter()
         hists = set(); nt = set(); states = set(); tbl = Counter()
         viols = {}
+        ctx_seen = set()
         samples = []
         rd = [0]
         t0 = time.monotonic()
@@ -1373,7 +1374,7 @@ def worker_fn(check, tier_, master, n_runs, budget_s=None):
                 tbl.inc(l)
             if ex.terminal_seen:
                 st.inc('reached-finished-or-drawn')
-            if v is not None and v.cls not in viols and len(viols) < 6:
+            if v is not None and v.cls not in viols and v.cls not in ctx_seen and len(viols) < 6:
                 v0, ex0 = run_ops(athlib, check, ex.trace)
                 mini = minimise(athlib, check, ex.trace, v.cls) if (v0 is not None and v0.cls == v.cls) else None
                 if mini is not None and not fresh_confirms(check, mini[0], v.cls):
@@ -1382,6 +1383,7 @@ def worker_fn(check, tier_, master, n_runs, budget_s=None):
                 if mini is None:
                     # the run's own call history does not reproduce it on fresh objects: the competition's
                     # behaviour depended on the competitions this process ran before it
+                    ctx_seen.add(v.cls)     # (handled once per class and worker: every attempt costs fresh interpreters)
                     if sum(1 for x in viols.values() if x.get('run_sequence')) >= 2:
                         continue        # (two such reports per worker are enough; each costs fresh interpreters)
                     allruns = list(range(wi, i + 1, nw))
